@@ -328,31 +328,59 @@ def build(repo=None):
     cd = am.func("_check_dims")
     cd_params = [a.arg for a in cd.args.args]
     memo_p, arg_p = (cd_params[2], cd_params[3]) if len(cd_params) == 4 else ("single_memo", "arg_memo")
-    local_defs = {}
-    for n in ast.walk(cd):
-        if isinstance(n, ast.Assign) and len(n.targets) == 1 and isinstance(n.targets[0], ast.Name):
-            local_defs.setdefault(n.targets[0].id, []).append(n.value)
+    mod_funcs = {n.name: n for n in am.tree.body if isinstance(n, ast.FunctionDef)}
 
-    def scope_names(e, depth=0):
-        out = set()
-        for x in ast.walk(e):
-            if isinstance(x, ast.Name):
-                if x.id in local_defs and x.id not in (memo_p, arg_p) and depth < 3:
-                    for v in local_defs[x.id]:
-                        out |= scope_names(v, depth + 1)
-                else:
-                    out.add(x.id)
-        return out
+    def eval_sites(fn, roles, depth=0):
+        """eval(...) calls in fn and in the module-level helpers it hands its memos to; roles: local name -> 'memo' | 'args' (followed through parameters)"""
+        local_defs = {}
+        for n in ast.walk(fn):
+            if isinstance(n, ast.Assign) and len(n.targets) == 1 and isinstance(n.targets[0], ast.Name):
+                local_defs.setdefault(n.targets[0].id, []).append(n.value)
 
-    evals = [c for c in ast.walk(cd) if isinstance(c, ast.Call) and getattr(c.func, "id", "") == "eval" and len(c.args) >= 2]
+        def scope_roles(e, d=0):
+            out = set()
+            for x in ast.walk(e):
+                if isinstance(x, ast.Name):
+                    if x.id in roles:
+                        out.add(roles[x.id])
+                    elif x.id in local_defs and d < 3:
+                        for v in local_defs[x.id]:
+                            out |= scope_roles(v, d + 1)
+            return out
+
+        sites = []
+        for c in ast.walk(fn):
+            if not isinstance(c, ast.Call):
+                continue
+            if getattr(c.func, "id", "") == "eval" and len(c.args) >= 2:
+                sites.append((isinstance(c.args[0], ast.JoinedStr), scope_roles(c.args[1]), ast.unparse(c)))
+            elif isinstance(c.func, ast.Name) and c.func.id in mod_funcs and c.func.id != fn.name and depth < 3:
+                g = mod_funcs[c.func.id]
+                gp = [a.arg for a in g.args.args]
+                sub = {}
+                for i_, a_ in enumerate(c.args):
+                    if i_ < len(gp):
+                        r_ = scope_roles(a_)
+                        if len(r_) == 1:
+                            sub[gp[i_]] = next(iter(r_))
+                        elif len(r_) > 1:
+                            sub[gp[i_]] = "both"
+                for k_ in c.keywords:
+                    if k_.arg in gp:
+                        r_ = scope_roles(k_.value)
+                        if r_:
+                            sub[k_.arg] = next(iter(r_)) if len(r_) == 1 else "both"
+                if sub:
+                    sites += eval_sites(g, sub, depth + 1)
+        return sites
+
+    evals = eval_sites(cd, {memo_p: "memo", arg_p: "args"})
     bad_scopes = []
-    for c in evals:
-        fstage = isinstance(c.args[0], ast.JoinedStr)
-        names = scope_names(c.args[1])
-        if fstage and memo_p in names:
-            bad_scopes.append(("f-string stage sees the axis memo", ast.unparse(c)))
-        if not fstage and arg_p in names:
-            bad_scopes.append(("arithmetic stage sees the call arguments", ast.unparse(c)))
+    for fstage, rs, src in evals:
+        if fstage and ("memo" in rs or "both" in rs):
+            bad_scopes.append(("f-string stage sees the axis memo", src))
+        if not fstage and ("args" in rs or "both" in rs):
+            bad_scopes.append(("arithmetic stage sees the call arguments", src))
     ob("C17:symbolic-axis-arithmetic-is-evaluated-over-bound-sizes-only(arguments-enter-through-{...}-only)", len(evals) == 2 and not bad_scopes, ["C17", "C01"], evals=len(evals), bad=bad_scopes)
     # in the wrappers the argument objects go only to bind, the checker-wrapped functions, fn, the argument memo and (error paths) the formatter
     for nested in [n for n in ast.walk(jt) if isinstance(n, ast.FunctionDef) and n.name in ("wrapped_fn", "wrapped_fn_impl")]:
